@@ -7,7 +7,7 @@
    statement the class is refuted by witness and the theorem is proved on its complement (_partial).
    T_len_only: two views with the same bytes within the length (any capacities) give equal results.
    Only statements, each closed by [exact]; generated layout, proofs in Proofs/Views*.v. *)
-From PV Require Import Model.ViewsShow Spec.Views Proofs.ViewsBase Proofs.Views5 Proofs.Views Proofs.Views2 Proofs.Views3 Proofs.Views4 Proofs.ViewsLen.
+From PV Require Import Model.ViewsShow Spec.Views Proofs.ViewsBase Proofs.Views5 Proofs.Views Proofs.Views2 Proofs.Views3 Proofs.Views4 Proofs.Views6 Proofs.ViewsLen.
 Open Scope N_scope.
 
 Theorem C01_ARP_getters_safe : forall v, wf v -> bytes_ok (arr v) ->
